@@ -483,6 +483,12 @@ def r8_flag_machine(ctx, fam):
 
 
 def run(ctx):
+    ctx.rule('C19.R9', 'TimeoutError / DisconnectedError raised by the '
+             'simple clients are the package\'s classes, not builtins of the '
+             'same name', floor=4)
+    from .common import exception_identity
+    exception_identity(ctx, ('simple_client', 'async_simple_client'),
+                       'C19.R9')
     ctx.rule('C19.R1', 'publish then signal', floor=2)
     ctx.rule('C19.R3', 'FIFO: append [event, *args] / pop(0)', floor=4)
     for fam in SA:
